@@ -23,6 +23,7 @@ print("impl %.1fs model %.1fs" % (t1 - t, t2 - t1))
 bad = 0
 panics = {}
 for p, a, b in zip(progs, impl, model):
+    a = reactive.normalize_impl(a)
     last = a[-1]
     if last.startswith("panic"):
         panics[last] = panics.get(last, 0) + 1
